@@ -9,11 +9,13 @@ EXPLANATION = "inductive step of each sequence operation from an arbitrary valid
 def A(name, op, l, tiers, **kw):
     lm = 2 * l + 2
     us = ["Type_Scan.0:24", "Type_Scan.1:24", "strcmp.0:24", "owns.0:26", "owns.1:%d" % (lm + 2), "owns.2:%d" % (lm + 2), "elem_live_count.0:26",
-          "vcw_new.0:50", "vcw_realloc.0:50", "vcw_check.0:50", "vcw_check.1:6", "vcw_find.0:6", "vcw_live.0:6",
+          "vcw_new.0:60", "vcw_realloc.0:60", "vcw_check.0:60", "vcw_check.1:6", "vcw_find.0:6", "vcw_live.0:6",
           "memcpy.0:8", "memset.0:8", "verif_memmove_w.0:%d" % (5 * (l + 1) + 2), "verif_memmove_w.1:%d" % (5 * (l + 1) + 2), "snapshot.0:%d" % (5 * lm + 2), "verif_on_throw.0:%d" % (5 * lm + 2)]
-    return Ob("array.%s.l%d" % (name, l), "C04/array_step.c", defs=["L=%d" % l, "OP=%s" % op], replace=["Array.c"], srcs_extra=["env_vcapw.c"],
+    two = name in ("concat", "assign")
+    vcw = 5 * (2 * l + 3) if two or name in ("push", "push_at", "resize", "init") else 5 * (l + 2)
+    return Ob("array.%s.l%d" % (name, l), "C04/array_step.c", defs=["L=%d" % l, "OP=%s" % op, "VCW=%d" % vcw, "VCW_BLOCKS=%d" % (2 if two or name == "init" else 1)], replace=["Array.c"], srcs_extra=["env_vcapw.c"],
               unwind=lm + 2, unwindset=us, checks=["bounds", "pointer", "div0"], tiers=tiers, desc="Array %s step from an arbitrary valid state, length <= %d" % (name, l), **kw)
-P = ("probe",)
+P = ("quick", "thorough")
 OPS = [("init", "OP_INIT"), ("push", "OP_PUSH"), ("pop", "OP_POP"), ("push_at", "OP_PUSH_AT"), ("pop_at", "OP_POP_AT"), ("getset", "OP_GETSET"), ("rem", "OP_REM"),
        ("rem_absent", "OP_REM_ABSENT"), ("mem", "OP_MEM"), ("concat", "OP_CONCAT"), ("resize", "OP_RESIZE"), ("sort", "OP_SORT"), ("iter", "OP_ITER"),
        ("assign", "OP_ASSIGN"), ("del", "OP_DEL"), ("bad_index", "OP_BAD_INDEX"), ("pop_empty", "OP_POP_EMPTY")]
@@ -23,7 +25,7 @@ def AN(name, op, l, nlen, spare, tiers, **kw):
     o.defs += ["NLEN=%d" % nlen, "NSPARE=%d" % spare]
     o.desc = "Array %s step from an arbitrary valid state of length %d with %d spare slots" % (name, nlen, spare)
     return o
-OBLIGATIONS = [A("init", "OP_INIT", 3, P, timeout=600), A("pop_empty", "OP_POP_EMPTY", 3, P, timeout=600)]
+OBLIGATIONS = [A("init", "OP_INIT", 3, P, timeout=600), AN("pop_empty", "OP_POP_EMPTY", 3, 0, 0, P, timeout=600), AN("pop_empty", "OP_POP_EMPTY", 3, 0, 1, P, timeout=600)]
 for n_, o_ in OPS:
     if n_ in ("init", "pop_empty"):
         continue
@@ -46,5 +48,7 @@ for n_, o_ in OPS:
                 OBLIGATIONS.append(o)
             continue
         OBLIGATIONS.append(AN(n_, o_, 3, nlen, 1 if nlen == 2 else 0, P, timeout=600))
-LEVEL_TEXT = "x"
-LEVEL_NOTE = "x"
+LEVEL_TEXT = ("Bounded model checking of the real Array.c: every operation as an inductive step from an arbitrary valid state (symbolic element values, duplicates, spare capacity) "
+              "against a reference sequence, one obligation per pre-state length 0..3 (and per index for the element-shifting operations, per operand length for concat/assign).")
+LEVEL_NOTE = ("Trusted: cbmc; probe element callbacks (eq/cmp/assign/destruct/swap) with an ownership ledger; storage malloc/realloc/free replaced by the fixed-capacity model lib/env_vcapw.c. "
+              "List and Tuple are not yet covered by step harnesses (see DESIGN.md).")
